@@ -9,7 +9,9 @@
 // by specs/crypto/BlobSigTrace.tla.  The driver decides nothing.
 //
 // Abstraction (trusted): rel = presented expiry against the clock read before and after the call;
-// res = nil / ExpiredError / anything else ("denied"); status = HTTP status of the GET.
+// ok = the wrapper returned nil (the class of a refusal, by errors.Is / the KeepError's HTTP status,
+// is recorded for drift detection only); status = HTTP status of the GET.  For the locator returned by
+// PUT only its signature is judged (against the reference HMAC over the fields it carries).
 
 package main
 
@@ -19,6 +21,7 @@ import (
 	"crypto/sha1"
 	"encoding/hex"
 	"encoding/json"
+	"errors"
 	"fmt"
 	"io"
 	"net/http"
@@ -54,8 +57,7 @@ type vC07KsScn struct {
 // vC07KsRefSig: the reference signature written from services/api/app/models/blob.rb
 // (HMAC-SHA1 per RFC 2104 over [hash, token, expiry.to_s(16), ttl.to_s(16)].join('@')); the same
 // independent implementation as in harness/C07_arvados.
-func vC07KsRefSig(key []byte, hash, token string, expiry, ttl int64) (sig, exphex string) {
-	exphex = strconv.FormatInt(expiry, 16)
+func vC07KsRefSig(key []byte, hash, token string, exphex string, ttl int64) (sig string) {
 	msg := strings.Join([]string{hash, token, exphex, strconv.FormatInt(ttl, 16)}, "@")
 	k := key
 	if len(k) > 64 {
@@ -72,7 +74,36 @@ func vC07KsRefSig(key []byte, hash, token string, expiry, ttl int64) (sig, exphe
 	}
 	inner := sha1.Sum(append(ipad, []byte(msg)...))
 	outer := sha1.Sum(append(opad, inner[:]...))
-	return hex.EncodeToString(outer[:]), exphex
+	return hex.EncodeToString(outer[:])
+}
+
+// vC07KsVerdict classifies what keepstore's VerifySignature wrapper returned: accepted or not is
+// what is judged; the class of a refusal (by sentinel, else by the HTTP status the error carries)
+// is recorded for drift detection only.
+func vC07KsVerdict(err error) (ok bool, res string) {
+	if err == nil {
+		return true, "ok"
+	}
+	if errors.Is(err, ExpiredError) {
+		return false, "expired"
+	}
+	var ke *KeepError
+	if errors.As(err, &ke) && ke.HTTPCode == ExpiredError.HTTPCode && ke.HTTPCode != PermissionError.HTTPCode {
+		return false, "expired"
+	}
+	return false, "denied"
+}
+
+// vC07KsSigHint finds the signature hint (+A<sig>@<exp>) of a locator, wherever it is placed.
+func vC07KsSigHint(loc string) (sig, exp string, ok bool) {
+	for _, h := range strings.Split(loc, "+")[1:] {
+		if strings.HasPrefix(h, "A") {
+			if i := strings.Index(h, "@"); i >= 0 {
+				return h[1:i], h[i+1:], true
+			}
+		}
+	}
+	return "", "", false
 }
 
 func vC07KsRel(eprime int64, t0, t1 time.Time) string {
@@ -159,13 +190,8 @@ func TestVerifC07KS(t *testing.T) {
 		t0 := time.Now()
 		verr := VerifySignature(cluster, scn.Loc, scn.VToken)
 		t1 := time.Now()
-		res := "denied"
-		if verr == nil {
-			res = "ok"
-		} else if verr == ExpiredError {
-			res = "expired"
-		}
-		tw.Write(map[string]interface{}{"ev": "verify", "via": "keepstore", "rel": vC07KsRel(eprime, t0, t1), "res": res})
+		vok, res := vC07KsVerdict(verr)
+		tw.Write(map[string]interface{}{"ev": "verifyks", "via": "keepstore", "rel": vC07KsRel(eprime, t0, t1), "ok": vok, "res": res})
 		// GET through the router
 		req, err := http.NewRequest("GET", srv.URL+"/"+scn.Loc, nil)
 		if err != nil {
@@ -202,37 +228,37 @@ func TestVerifC07KS(t *testing.T) {
 					presp.Body.Close()
 					signed := strings.TrimSuffix(string(pbody), "\n")
 					prefix := scn.PHash + "+" + strconv.Itoa(len(data))
+					// Judged (putloc): the signature keepstore put on the locator is the reference HMAC over
+					// the fields that locator carries.  Recorded for drift only: the layout of the locator
+					// (prefixok) and which expiry PUT chose (expok: request time + TTL) - the statement
+					// does not say what PUT returns.
+					psig, pexp, signedp := vC07KsSigHint(signed)
+					phash := strings.Split(signed, "+")[0]
+					pe, perr := strconv.ParseInt(pexp, 16, 64)
+					ev := map[string]interface{}{"ev": "putloc", "sigok": false,
+						"prefixok": strings.HasPrefix(signed, prefix+"+A"), "signed": signedp,
+						"expok": perr == nil && pe >= p0.Unix()+ttl && pe <= p1.Unix()+ttl}
+					if signedp {
+						ev["sigok"] = psig == vC07KsRefSig(key, phash, scn.VToken, pexp, ttl)
+					}
 					tw.Write(map[string]interface{}{"ev": "reset", "scn": scn.ID, "kind": "ksput", "wf": true, "same": true,
 						"loc": signed, "putstatus": presp.StatusCode})
-					ev := map[string]interface{}{"ev": "signloc", "prefixok": strings.HasPrefix(signed, prefix+"+A"), "sigok": false, "expok": false}
-					pe := int64(-1)
-					if strings.HasPrefix(signed, prefix+"+A") {
-						rest := signed[len(prefix)+2:]
-						if i := strings.Index(rest, "@"); i >= 0 {
-							if v, err := strconv.ParseInt(rest[i+1:], 16, 64); err == nil {
-								pe = v
-								refsig, refexp := vC07KsRefSig(key, scn.PHash, scn.VToken, v, ttl)
-								ev["sigok"] = rest[:i] == refsig
-								// signed "now + TTL" with the clock read between p0 and p1
-								ev["expok"] = rest[i+1:] == refexp && v >= p0.Unix()+ttl && v <= p1.Unix()+ttl
-							}
-						}
-					}
-					if presp.StatusCode == 200 {
+					if presp.StatusCode == 200 && signedp {
 						tw.Write(ev)
+					} else if presp.StatusCode == 200 {
+						ev["ev"] = "skip" // PUT returned an unsigned locator: nothing the statement speaks about
+						tw.Write(ev)
+					}
+					// the locator keepstore signed itself is an unperturbed case: present it back
+					if presp.StatusCode == 200 && signedp && ev["sigok"] == true && perr == nil && phash == scn.PHash {
 						greq, err := http.NewRequest("GET", srv.URL+"/"+signed, nil)
 						if err == nil {
 							greq.Header.Set("Authorization", "OAuth2 "+scn.VToken)
 							g0 := time.Now()
 							verr := VerifySignature(cluster, signed, scn.VToken)
 							g1 := time.Now()
-							res := "denied"
-							if verr == nil {
-								res = "ok"
-							} else if verr == ExpiredError {
-								res = "expired"
-							}
-							tw.Write(map[string]interface{}{"ev": "verify", "via": "keepstore", "rel": vC07KsRel(pe, g0, g1), "res": res})
+							vok, res := vC07KsVerdict(verr)
+							tw.Write(map[string]interface{}{"ev": "verifyks", "via": "keepstore", "rel": vC07KsRel(pe, g0, g1), "ok": vok, "res": res})
 							g0 = time.Now()
 							gresp, err := client.Do(greq)
 							g1 = time.Now()
